@@ -43,7 +43,7 @@ pub enum Kind {
 
 #[derive(Clone, Debug, Serialize)]
 pub struct ImportGraph {
-    /// (source node, target helper 1..=3, kind)
+    /// (source node — 4 is the test module test_x.py itself —, target helper 1..=3, kind)
     pub edges: Vec<(usize, usize, Kind)>,
     pub relative: bool,
     #[serde(default)]
@@ -57,7 +57,7 @@ fn module_name(src: usize, dst: usize, relative: bool, stdlib_like: bool) -> Str
     }
     // relative spelling from the source's package
     if src == 3 {
-        // inside pkg/
+        // inside pkg/ (source 4, the test module, sits in the root directory like conftest.py)
         match dst {
             3 => if stdlib_like { ".email".to_string() } else { ".m3".to_string() },
             _ => format!("..{}", abs),
@@ -99,7 +99,20 @@ impl ImportGraph {
         }
         files.push(FileSpec::new("pkg/__init__.py", vec![]));
         files.push(FileSpec::new("decoy_mod.py", vec![Item::fixture("decoy_fx", &[])]));
-        files.push(FileSpec::new("test_x.py", vec![Item::test("t", &["c0", "f1", "f2", "f3", "decoy_fx"])]));
+        // the test module may import fixtures itself: they become fixtures of that module
+        let mut test_items = vec![Item::test("t", &["c0", "f1", "f2", "f3", "decoy_fx"])];
+        for (s, d, k) in &self.edges {
+            if *s != 4 {
+                continue;
+            }
+            let m = module_name(4, *d, self.relative, self.stdlib_like_names);
+            match k {
+                Kind::Star => test_items.insert(0, Item::StarImport { module: m }),
+                Kind::Explicit => test_items.insert(0, Item::ExplicitImport { module: m, names: vec![FX[*d].to_string()] }),
+                _ => test_items.insert(0, Item::ExplicitImport { module: m, names: vec!["f1".into(), "f2".into(), "f3".into()] }),
+            }
+        }
+        files.push(FileSpec::new("test_x.py", test_items));
         Ws { files }
     }
 }
@@ -128,6 +141,18 @@ fn enumerate_graphs(max_edges: usize) -> Vec<ImportGraph> {
         }
     }
     rec(&slots, &kinds, 0, &mut Vec::new(), max_edges, &mut out);
+    // the test module imports from a helper itself (one such edge, every kind of import statement),
+    // on top of every graph with up to max_edges - 1 other edges
+    let base: Vec<ImportGraph> = out.iter().filter(|g| g.edges.len() < max_edges && !g.stdlib_like_names).cloned().collect();
+    for g in base {
+        for d in 1..4 {
+            for k in [Kind::Star, Kind::Explicit, Kind::ExplicitAll] {
+                let mut e = g.edges.clone();
+                e.push((4, d, k));
+                out.push(ImportGraph { edges: e, relative: g.relative, stdlib_like_names: false });
+            }
+        }
+    }
     out
 }
 
@@ -178,7 +203,7 @@ fn check_graph(rep: &Report, g: &ImportGraph, scans: &AtomicU64) {
     }
     // scanner walk: every module reachable through imports from conftest/test files is analysed,
     // and from the module that defines it
-    let mut reach: BTreeSet<usize> = [0usize].into_iter().collect();
+    let mut reach: BTreeSet<usize> = [0usize, 4usize].into_iter().collect();
     loop {
         let mut grew = false;
         for (s, d, _k) in &g.edges {
@@ -588,6 +613,6 @@ pub fn run(rep: &'static Report) {
     rep.set("distinct_nontrivial", (graphs.iter().filter(|g| !g.edges.is_empty()).count() + venvs.len()) as u64);
     rep.set("traces_validated_against_impl", s);
     rep.set("exhaustive", true);
-    rep.set("rule", "(i) every import graph with at most 3 (quick) / 4 (thorough) edges among the 12 possible (source ∈ {conftest.py, m1.py, m2.py, pkg/m3.py}) → (target ∈ {m1, m2, pkg.m3}) pairs, each edge a star import, an explicit import of the target's fixture, an explicit import of every fixture name (so that re-exported and unavailable names are requested too), a pytest_plugins entry or a pytest_plugins entry preceded by an overwritten assignment, in absolute and relative spelling (levels 1 and 2; relative graphs without pytest_plugins edges once more with helper modules named like standard-library modules: http, types, email), including self-loops, cycles and diamonds — materialised on tmpfs and scanned for real; the reference model (PytestLookup with transitive star/pytest_plugins export and per-name explicit export) gives for every name used by test_x.py the defining module or 'not reachable'; compared with go-to-definition (resolver walk), the available-fixtures view (completion walk), the set of modules the scan analysed (scanner walk) and the defining module recorded; (ii) the product of virtualenv layouts: entry-point target {module, package, submodule, mod:attr} × install {regular, editable inside the workspace, editable outside, workspace is the editable root} × {dist-info, egg-info} × raw/normalised distribution directory name × 4 .pth namings × pytest built-ins present/absent × plugin module {plain, star-imports a helper, declares pytest_plugins, explicit import} × chain length 1..3 to the helper's module × {a project conftest also star-imports that module, not}; expected: every plugin fixture found, third-party iff its source lives in site-packages or in an editable root outside the workspace, plugin iff reached from an entry point (propagated by star/pytest_plugins), visible from a project test, and no third-party fixture among workspace symbols; (iii) four trees in which the entry-point module pulls in the directory's conftest.py, which imports further modules itself (star / pytest_plugins), scanned under a labelled sweep of hash seeds: plugin status must reach every module of the chain each time; (iv) a tree with 2140 test/conftest files (more than the file cache holds) whose 40 conftest.py files each import a helper module: every helper's fixture must be discovered under each swept hash seed; (v) two and three editable installs side by side, each inside or outside the workspace, their metadata created in every order: third-party iff outside, plugin always");
+    rep.set("rule", "(i) every import graph with at most 3 (quick) / 4 (thorough) edges among the 12 possible (source ∈ {conftest.py, m1.py, m2.py, pkg/m3.py}) → (target ∈ {m1, m2, pkg.m3}) pairs, each edge a star import, an explicit import of the target's fixture, an explicit import of every fixture name (so that re-exported and unavailable names are requested too), a pytest_plugins entry or a pytest_plugins entry preceded by an overwritten assignment, in absolute and relative spelling (levels 1 and 2; relative graphs without pytest_plugins edges once more with helper modules named like standard-library modules: http, types, email), including self-loops, cycles and diamonds, plus every such graph with one edge less extended by an import statement (star, the target's fixture, every fixture name) in the test module test_x.py itself — materialised on tmpfs and scanned for real; the reference model (PytestLookup with transitive star/pytest_plugins export and per-name explicit export) gives for every name used by test_x.py the defining module or 'not reachable'; compared with go-to-definition (resolver walk), the available-fixtures view (completion walk), the set of modules the scan analysed (scanner walk) and the defining module recorded; (ii) the product of virtualenv layouts: entry-point target {module, package, submodule, mod:attr} × install {regular, editable inside the workspace, editable outside, workspace is the editable root} × {dist-info, egg-info} × raw/normalised distribution directory name × 4 .pth namings × pytest built-ins present/absent × plugin module {plain, star-imports a helper, declares pytest_plugins, explicit import} × chain length 1..3 to the helper's module × {a project conftest also star-imports that module, not}; expected: every plugin fixture found, third-party iff its source lives in site-packages or in an editable root outside the workspace, plugin iff reached from an entry point (propagated by star/pytest_plugins), visible from a project test, and no third-party fixture among workspace symbols; (iii) four trees in which the entry-point module pulls in the directory's conftest.py, which imports further modules itself (star / pytest_plugins), scanned under a labelled sweep of hash seeds: plugin status must reach every module of the chain each time; (iv) a tree with 2140 test/conftest files (more than the file cache holds) whose 40 conftest.py files each import a helper module: every helper's fixture must be discovered under each swept hash seed; (v) two and three editable installs side by side, each inside or outside the workspace, their metadata created in every order: third-party iff outside, plugin always");
     rep.assume("aliased explicit imports are outside the grammar (documented as unsupported)");
 }
